@@ -18,3 +18,7 @@ def run(ctx):
     gl.run_grid(ctx, [("limits", scens)], 0, "C08")
     ctx.assume("points loaded before limits were (re)set may exceed them; their descendants in other directions inherit that coordinate (bound per dimension: max(limit, highest loaded level))")
     ctx.assume("non-termination is observed by a watchdog: each refinement/update call runs first in a forked child with a 10 s limit")
+
+
+def replay(ctx, path):
+    return gl.replay(ctx, path, "C08", 0)
